@@ -143,12 +143,41 @@ func (c *Ctx) boundedIDSource(v ssa.Value, depth int) (bool, string) {
 			if sc := t.Call.StaticCallee(); sc != nil && (engine.ShortName(sc) == "len" || engine.ShortName(sc) == "Count" || engine.ShortName(sc) == "getMessagesWithFlagCount") {
 				return
 			}
+			// a helper of the package: bounded when every return of it is
+			if h := t.Call.StaticCallee(); h != nil && depth > 0 && len(h.Blocks) > 0 && h.Signature.Results().Len() == 1 && c.P.IsOwn(h) {
+				all := true
+				for _, ret := range engine.Returns(h) {
+					if okR, _ := c.boundedIDSource(ret.Results[0], depth-1); !okR {
+						all = false
+					}
+				}
+				if all {
+					return
+				}
+			}
 			ok, why = false, "result of "+t.Call.Value.String()
 		case *ssa.Extract:
 			// index result of a search over the list
 			if call, isCall := t.Tuple.(*ssa.Call); isCall {
 				if sc := call.Call.StaticCallee(); sc != nil && (engine.BaseName(sc) == "binarySearchByUID" || engine.BaseName(sc) == "BinarySearchFunc") {
 					return
+				}
+			}
+			if call, isCall := t.Tuple.(*ssa.Call); isCall {
+				if h := call.Call.StaticCallee(); h != nil && depth > 0 && len(h.Blocks) > 0 && c.P.IsOwn(h) && t.Index < h.Signature.Results().Len() {
+					all := true
+					for _, ret := range engine.Returns(h) {
+						if t.Index >= len(ret.Results) {
+							all = false
+							continue
+						}
+						if okR, _ := c.boundedIDSource(ret.Results[t.Index], depth-1); !okR {
+							all = false
+						}
+					}
+					if all {
+						return
+					}
 				}
 			}
 			ok, why = false, "tuple element "+t.Name()
